@@ -210,7 +210,7 @@ def check_node_valid(w0: int, w1: int, ign: int, opt: int) -> bool:
     """
     pre: -2 <= w0 <= 3 and -2 <= w1 <= 3
     pre: -1 <= ign <= 1
-    pre: 0 <= opt <= 4
+    pre: 0 <= opt <= 7
     post: _
     """
     # node-weighted input of the same graph: the converse direction (documented options on valid input are accepted) and
@@ -222,7 +222,7 @@ def check_node_valid(w0: int, w1: int, ign: int, opt: int) -> bool:
             invalid = True
         if c == -2 or c == 0:
             pass
-    r0, r1, ri, ro = _conc(w0, -2, 3), _conc(w1, -2, 3), _conc(ign, -1, 1), _conc(opt, 0, 4)
+    r0, r1, ri, ro = _conc(w0, -2, 3), _conc(w1, -2, 3), _conc(ign, -1, 1), _conc(opt, 0, 7)
     with NoTracing():
         G = nx.DiGraph()
         G.add_edges_from([(u, v) for (u, v, _f) in BASE])
@@ -250,6 +250,12 @@ def check_node_valid(w0: int, w1: int, ign: int, opt: int) -> bool:
             kw["elements_to_ignore_percentile"] = 30
         elif ro == 4:
             kw[CKEY] = [[inner[0]]]
+        elif ro == 5:
+            kw[CKEY] = [[]]                                   # malformed: empty constraint
+        elif ro == 6 and HAS_STARTS:
+            kw["additional_starts"] = [(names[0], inner[0])]   # malformed: an edge where a node is expected
+        elif ro == 7 and HAS_STARTS:
+            kw["additional_ends"] = ["nope"]                   # unknown node
         try:
             m = getattr(fp, CLS)(G, "flow", **kw)
             m.solve()
@@ -258,6 +264,8 @@ def check_node_valid(w0: int, w1: int, ign: int, opt: int) -> bool:
             outcome = "ValueError"
         except Exception as e:
             outcome = type(e).__name__
+    if ro == 5 or (HAS_STARTS and (ro == 6 or ro == 7)):
+        invalid = True
     if invalid and ro == 3 and CLS == "kMinPathErrorCycles" and ri < 0:
         return True        # a negative weight below the percentile is itself ignored by the percentile rule: no claim
     if invalid:
@@ -429,7 +437,9 @@ def _diag(task, call):
     if fn == "check_node_valid":
         a = dict(zip(["w0", "w1", "ign", "opt"], pos)); a.update(kw)
         neg = (a["w0"] == -1 and a["ign"] != 0) or (a["w1"] == -1 and a["ign"] != 1)
-        return ("node-mode:negative-node-weight->ok" if neg else "node-mode:valid-input-rejected:" + ["plain", "starts-ends", "error_scaling", "percentile", "constraint"][a["opt"]])
+        if a["opt"] >= 5 and not neg:
+            return "node-mode:malformed-input-not-rejected-with-ValueError:" + ["empty-constraint", "edge-as-additional-start", "unknown-additional-end"][a["opt"] - 5]
+        return ("node-mode:negative-node-weight->ok" if neg else "node-mode:valid-input-rejected:" + ["plain", "starts-ends", "error_scaling", "percentile", "constraint", "empty-constraint->not-ValueError", "edge-as-start->not-ValueError", "unknown-end->not-ValueError"][a["opt"]])
     names = ["k", "covn", "w0", "w1", "ign", "corr", "wtc"]
     a = dict(zip(names, pos))
     a.update(kw)
